@@ -239,6 +239,7 @@ type RunResult struct {
 	Truncated  bool
 	Samples    []*Vector
 	Diffs      []DiffRec
+	EventPaths [][]Event
 }
 
 // Explore runs the harness entry over all feasible paths within the budgets.
@@ -407,6 +408,9 @@ func (m *Machine) merge(rr *RunResult, res *PathResult) {
 	}
 	for f := range res.Funcs {
 		rr.Funcs[f] = true
+	}
+	if res.Events != nil && res.Outcome == "ok" {
+		rr.EventPaths = append(rr.EventPaths, res.Events)
 	}
 }
 
